@@ -16,8 +16,9 @@ check_C18() {
 }
 
 check_C05() {
-  build_inpkg c05_rotation_verif_test.go
+  build_inpkg fixture_verif_test.go c19_resolution_verif_test.go c05_rotation_verif_test.go c05_sockets_verif_test.go
   inpkg_test inpkg TestVerifC05
+  inpkg_test sockets TestVerifC05Sockets
   build_proxy
   wire_part wire dialog
 }
